@@ -518,8 +518,16 @@ static bool has_varargs(MacroArg *args) {
 static Token *subst(Token *tok, MacroArg *args) {
   Token head = {};
   Token *cur = &head;
+  Token *start = tok;
+
+  // True if the left operand of the next "##" is a placemarker, i.e.
+  // the operands before it were empty arguments and produced no token.
+  bool placemarker = false;
 
   while (tok->kind != TK_EOF) {
+    bool lhs_is_placemarker = placemarker;
+    placemarker = false;
+
     // "#" followed by a parameter is replaced with stringized actuals.
     if (equal(tok, "#")) {
       MacroArg *arg = find_arg(args, tok->next);
@@ -547,13 +555,28 @@ static Token *subst(Token *tok, MacroArg *args) {
     }
 
     if (equal(tok, "##")) {
-      if (cur == &head)
+      if (tok == start)
         error_tok(tok, "'##' cannot appear at start of macro expansion");
 
       if (tok->next->kind == TK_EOF)
         error_tok(tok, "'##' cannot appear at end of macro expansion");
 
       MacroArg *arg = find_arg(args, tok->next);
+
+      // placemarker ## x is x
+      if (lhs_is_placemarker) {
+        Token *before = cur;
+        if (arg) {
+          for (Token *t = arg->tok; t->kind != TK_EOF; t = t->next)
+            cur = cur->next = copy_token(t);
+        } else {
+          cur = cur->next = copy_token(tok->next);
+        }
+        placemarker = (cur == before);
+        tok = tok->next->next;
+        continue;
+      }
+
       if (arg) {
         if (arg->tok->kind != TK_EOF) {
           *cur = *paste(cur, arg->tok);
@@ -575,6 +598,7 @@ static Token *subst(Token *tok, MacroArg *args) {
       Token *rhs = tok->next->next;
 
       if (arg->tok->kind == TK_EOF) {
+        Token *before = cur;
         MacroArg *arg2 = find_arg(args, rhs);
         if (arg2) {
           for (Token *t = arg2->tok; t->kind != TK_EOF; t = t->next)
@@ -582,6 +606,7 @@ static Token *subst(Token *tok, MacroArg *args) {
         } else {
           cur = cur->next = copy_token(rhs);
         }
+        placemarker = (cur == before);
         tok = rhs->next;
         continue;
       }
